@@ -40,15 +40,22 @@ ASSUMPTIONS = [
     'does not draw entropy); what is judged is only whether a call draws from the entropy source while it runs '
     'and whether two calls return the same secret/owner salt/seed/encrypted key',
     'confirmation codes are not checked',
+    'in the key-object history sub-space the library\'s own scrypt is memoised per case (a pure function; each '
+    'distinct input is still computed by the library\'s scrypt once)',
+    'the published vectors have fixed passphrases (ASCII; the unicode vector of the BIP text is added in decomposed '
+    'and NFC form); the other passphrase classes are covered against the reference implementation in plain/ec',
 ]
 
+# Seed-independent passphrase classes (every sub-space uses all of them): what separates the Unicode
+# normalisation forms - NFC (BIP38), NFD/NFKD (BIP39 style), NFKC/NFKD (compatibility folding)
 PWS = {
-    'ascii1': 'TestingOneTwoThree',
-    'ascii2': 'a',
-    'nfc': unicodedata.normalize('NFC', 'Pässwörd é'),
-    'nfd': unicodedata.normalize('NFD', 'Pässwörd é'),
-    'vector': '\u03d2\u0301\u0000\U00010400\U0001f4a9',       # BIP38 test vector passphrase, decomposed form
+    'ascii': 'TestingOneTwoThree',
+    'nfc': unicodedata.normalize('NFC', 'Gr\u00fc\u00dfe aus dem Caf\u00e9'),     # precomposed: NFC != NFD/NFKD
+    'nfd': unicodedata.normalize('NFD', 'Gr\u00fc\u00dfe aus dem Caf\u00e9'),     # same text decomposed: must equal 'nfc'
+    'compat': '\ufb01sh and chips \u334d',      # ligature fi, SQUARE MEETORU: NFC keeps them, NFKC/NFKD fold them
+    'vector': '\u03d2\u0301\u0000\U00010400\U0001f4a9',       # BIP38 specification passphrase, decomposed form
 }
+PW_CLASSES = list(PWS)
 NETS = ['bitcoin', 'testnet', 'litecoin', 'dogecoin']
 
 
@@ -57,6 +64,15 @@ def selftest():
     nets.selftest()
     bip38.selftest()
     assert PWS['nfc'] != PWS['nfd'] and bip38._norm(PWS['nfc']) == bip38._norm(PWS['nfd'])
+    for c, pw in PWS.items():       # what each class separates
+        forms = {f: unicodedata.normalize(f, pw) for f in ('NFC', 'NFD', 'NFKC', 'NFKD')}
+        if c == 'ascii':
+            assert len(set(forms.values())) == 1
+        if c in ('nfc', 'nfd', 'vector'):
+            assert forms['NFC'] != forms['NFD'] and forms['NFC'] != forms['NFKD']
+        if c == 'compat':
+            assert forms['NFC'] == pw and forms['NFKC'] != forms['NFC'] and forms['NFKD'] != forms['NFC']
+    assert _folded(PWS['compat']) == 'fish and chips \u30e1\u30fc\u30c8\u30eb' and _folded(PWS['ascii']) is None
     assert bip38._norm(PWS['vector']).hex() == 'cf9300f0909080f09f92a9'       # bytes stated in the BIP
     src = _Counting()
     a, b = src.urandom(8), src.urandom(8)
@@ -65,6 +81,20 @@ def selftest():
 
 def _nfc(pw):
     return unicodedata.normalize('NFC', pw)
+
+
+def _folded(pw):
+    """The compatibility-folded (NFKC) passphrase when that is a DIFFERENT passphrase under BIP38 (NFC), else None."""
+    f = unicodedata.normalize('NFKC', pw)
+    return f if f != _nfc(pw) else None
+
+
+def _wrong_list(pw, labels):
+    """[(label, passphrase)] that BIP38 regards as different from pw."""
+    out = [(l, PWS[l]) for l in labels if _nfc(PWS[l]) != _nfc(pw)]
+    if _folded(pw) is not None:
+        out.append(('nfkc_of_itself', _folded(pw)))
+    return out
 
 
 def _call(f):
@@ -134,19 +164,100 @@ def sub_plain(case):
         if r.network.name != net:
             dev('Key(bip38)|network_lost', got=r.network.name)
     # every other passphrase must be refused
-    for wl in case['wrong']:
-        w = PWS[wl]
-        if _nfc(w) == _nfc(pw):
-            continue
+    for wl, w in _wrong_list(pw, case['wrong']):
         r, exc = _call(lambda: Key(ref_enc, password=w, network=net))
         n += 1
         if r is not None:
-            dev('Key(bip38)|wrong_passphrase_accepted|%s' % ('same_key' if r.secret == k else 'other_key'),
+            dev('Key(bip38)|wrong_passphrase_accepted|%s%s' % ('same_key' if r.secret == k else 'other_key',
+                                                                '|compatibility_folded' if wl == 'nfkc_of_itself' else ''),
                 enc=ref_enc, wrong_passphrase=w, got='%064x' % r.secret)
             outs.append('wrong_pw_accepted')
         else:
             outs.append('wrong_pw_refused')
     return {'devs': devs, 'n': n, 'out': outs, 'trans': n, 'traces': 1}
+
+
+# ----------------------------------------------------------------------------- prior calls on the key object
+KEY_OPS = {
+    'address': lambda k: k.address(),
+    'address_base58': lambda k: k.address(encoding='base58'),
+    'address_bech32': lambda k: k.address(encoding='bech32'),
+    'address_p2sh': lambda k: k.address(script_type='p2sh'),
+    'address_p2sh_p2wpkh': lambda k: k.address(script_type='p2sh_p2wpkh'),
+    'address_uncompressed': lambda k: k.address_uncompressed(),
+    'address_compressed': lambda k: k.address(compressed=True),
+    'address_obj': lambda k: k.address_obj,
+    'hash160': lambda k: k.hash160,
+    'wif': lambda k: k.wif(),
+    'public': lambda k: k.public(),
+    'as_dict': lambda k: k.as_dict(include_private=True),
+    'encrypt': lambda k: k.encrypt('other passphrase'),
+}
+
+
+def sub_hist(case):
+    """case = {'key','comp','net','pw','seed','hists': [[op,..],..]}: every history of reading calls on ONE Key
+    object, then encrypt: the result must be the reference encryption of the key as it was created."""
+    from bitcoinlib.keys import Key
+    import bitcoinlib.keys as K
+    k = _sec(case['key'], case['seed'])
+    comp, net, pw = case['comp'], case['net'], PWS[case['pw']]
+    ver = nets.p2pkh_ver(net)
+    ref_enc = bip38.encrypt(k, comp, pw, ver)
+    devs, outs, states, nt = [], [], [], []
+    seen = set()
+    real = K.scrypt_hash
+    memo = {}
+
+    def memo_kdf(password, salt, key_len=64, N=16384, r=8, p=1, buflen=64):
+        # the library's own scrypt, computed once per distinct input of this case (pure function)
+        key = (bytes(password) if not isinstance(password, str) else password, bytes(salt), key_len, N, r, p)
+        if key not in memo:
+            memo[key] = real(password, salt, key_len, N, r, p)
+        return memo[key]
+    K.scrypt_hash = memo_kdf
+    try:
+        for hist in case['hists']:
+            key = Key('%064x' % k, network=net, compressed=comp)
+            raised = []
+            for op in hist:
+                _, exc = _call(lambda: KEY_OPS[op](key))
+                raised.append(exc is not None)
+            enc, exc = _call(lambda: key.encrypt(pw))
+            a = key._address_obj
+            states.append(json.dumps([comp, net, bool(key.compressed), a.encoding if a else None,
+                                      a.script_type if a else None]))
+            nt.append('/'.join(hist) or '-')
+            if enc == ref_enc:
+                outs.append('same_as_reference')
+                continue
+            last = [op for op, r in zip(hist, raised) if not r and op.startswith('address_')]
+            if enc is None:
+                sig = 'Key.encrypt after %s|raises' % _hist_class(hist)
+            elif enc == bip38.encrypt(k, not comp, pw, ver) and bool(key.compressed) != comp:
+                sig = 'Key.encrypt after address(compressed=other)|compression_flag_of_key_changed_by_address_call'
+            else:
+                r = bip38.decrypt(enc, pw, ver)
+                raw = codec.b58check_decode(enc)
+                if r is None and raw is not None and a is not None and (a.encoding != 'base58' or a.script_type != 'p2pkh') \
+                        and raw[3:7] == codec.dsha256(a.address.encode())[:4]:
+                    sig = 'Key.encrypt after address(non-default)|hashes_cached_non_p2pkh_address'
+                else:
+                    sig = 'Key.encrypt after %s|differs_from_reference|unexplained' % _hist_class(hist)
+            outs.append('differs')
+            if sig not in seen:
+                seen.add(sig)
+                devs.append({'sig': sig, 'detail': {'history': hist, 'key': '%064x' % k, 'compressed': comp,
+                                                    'network': net, 'passphrase': pw, 'expected': ref_enc, 'got': enc,
+                                                    'exc': exc, 'last_address_calls': last}})
+    finally:
+        K.scrypt_hash = real
+    return {'devs': devs, 'n': len(case['hists']), 'out': outs, 'nt': nt, 'states': sorted(set(states)),
+            'trans': sum(len(h) + 1 for h in case['hists']), 'traces': len(case['hists'])}
+
+
+def _hist_class(hist):
+    return 'prior calls' if hist else 'no prior call'
 
 
 # ----------------------------------------------------------------------------- EC-multiplied mode
@@ -169,7 +280,14 @@ def sub_ec(case):
         dev('bip38_intermediate_password|raises', exc=exc)
         return {'devs': devs, 'n': n, 'out': ['intermediate_raises'], 'trans': n, 'traces': 1}
     if ip != ref_ip:
-        dev('bip38_intermediate_password|differs_from_specification', expected=ref_ip, got=ip)
+        cls = 'unexplained'
+        for form in ('NFD', 'NFKC', 'NFKD'):      # which normalisation form reproduces the library's code
+            alt = unicodedata.normalize(form, pw)
+            if alt != _nfc(pw) and bip38.intermediate(alt.encode('utf8'), salt, lot, seq) == ip:
+                cls = 'passphrase_normalised_%s_instead_of_NFC' % form
+                break
+        dev('bip38_intermediate_password|differs_from_specification|%s|%s' % (
+            'lot_sequence' if lot is not None else 'no_lot', cls), expected=ref_ip, got=ip)
         outs.append('intermediate_differs')
     else:
         outs.append('intermediate_ok')
@@ -222,22 +340,33 @@ def sub_ec(case):
             outs.append('decrypt_wrong')
         else:
             outs.append('decrypt_ok')
-        w = PWS[case['wrong']]
-        r, exc = _call(lambda: Key(ew, password=w, network=net))
-        n += 1
-        if r is not None:
-            dev('Key(bip38 ec-multiplied)|wrong_passphrase_accepted', encrypted=ew, wrong_passphrase=w)
-            outs.append('wrong_pw_accepted')
-        else:
-            outs.append('wrong_pw_refused')
+        for wl, w in _wrong_list(pw, [case['wrong']]):
+            r, exc = _call(lambda: Key(ew, password=w, network=net))
+            n += 1
+            if r is not None:
+                dev('Key(bip38 ec-multiplied)|wrong_passphrase_accepted%s' % (
+                    '|compatibility_folded' if wl == 'nfkc_of_itself' else ''), encrypted=ew, wrong_passphrase=w)
+                outs.append('wrong_pw_accepted')
+            else:
+                outs.append('wrong_pw_refused')
     return {'devs': devs, 'n': n, 'out': outs, 'trans': n, 'traces': 1}
 
 
 # ----------------------------------------------------------------------------- published vectors
+def _vectors():
+    with open(os.path.join(os.path.dirname(bip38.__file__), 'vectors', 'bip38_protected_key_tests.json')) as f:
+        vec = json.load(f)['valid']
+    # the unicode vector of the BIP text: passphrase given decomposed (as in the BIP) and precomposed
+    uni = {'bip38': '6PRW5o9FLp4gJDDVqJQKJFTpMvdsSGJxMYHtHaQBF3ooa8mwD69bapcDQn',
+           'wif': '5Jajm8eQ22H3pGWLEVCXyvND8dQZhiQhoLJNKjYXk9roUFTMSZ4'}
+    vec.append(dict(uni, passphrase=PWS['vector'], description='BIP38 unicode vector, passphrase decomposed'))
+    vec.append(dict(uni, passphrase=_nfc(PWS['vector']), description='BIP38 unicode vector, passphrase NFC'))
+    return vec
+
+
 def sub_vector(case):
     from bitcoinlib.keys import Key
-    with open(os.path.join(os.path.dirname(bip38.__file__), 'vectors', 'bip38_protected_key_tests.json')) as f:
-        v = json.load(f)['valid'][case]
+    v = _vectors()[case]
     wif = codec.b58check_decode(v['wif'])
     comp = len(wif) == 34
     k = int.from_bytes(wif[1:33], 'big')
@@ -402,7 +531,7 @@ def worker_init():
     logging.disable(logging.CRITICAL)
 
 
-SUBS = {'plain': sub_plain, 'ec': sub_ec, 'vectors': sub_vector, 'fresh': sub_fresh}
+SUBS = {'plain': sub_plain, 'hist': sub_hist, 'ec': sub_ec, 'vectors': sub_vector, 'fresh': sub_fresh}
 
 
 # ----------------------------------------------------------------------------- enumeration
@@ -413,23 +542,48 @@ def run(ctx):
 
     def want(name):
         return not only or name in only
-    # ---- plain mode product
+    # ---- plain mode: thorough = full product; quick = every (key, flag, network) combination with two passphrase
+    # classes assigned in rotation, so that every passphrase class occurs with every key, flag and network
     keys = ['one', 'n-1', 'lz-seeded'] if q else ['one', 'n-1', 'lz-seeded', 'w0', 'w1', 'w2']
     netsl = ['bitcoin', 'litecoin'] if q else NETS
-    pws = ['ascii1', 'nfd', 'vector'] if q else list(PWS)
+    pws = PW_CLASSES
     cases = []
+    ci = 0
     for kl in keys:
         for comp in (True, False):
             for net in netsl:
-                for i, pl in enumerate(pws):
+                sel = [pws[(2 * ci) % len(pws)], pws[(2 * ci + 1) % len(pws)]] if q else pws
+                ci += 1
+                for pl in sel:
+                    i = pws.index(pl)
                     wrong = [pws[(i + 1) % len(pws)]] if q else [x for x in pws if x != pl]
                     cases.append({'key': kl, 'comp': comp, 'net': net, 'pw': pl, 'wrong': wrong, 'seed': seed})
+    assert set(c['pw'] for c in cases) == set(pws)
     if want('plain'):
         ctx.pmap('plain', cases, chunk=1)
-    ctx.note('bounds_plain', {'keys': keys, 'flags': 2, 'networks': netsl, 'passphrases': pws,
-                              'wrong_passphrases_per_case': 'next in list' if q else 'all others',
-                              'cases': len(cases)})
-    # ---- EC multiplied
+    ctx.note('bounds_plain', {'keys': keys, 'flags': 2, 'networks': netsl, 'passphrase_classes': pws,
+                              'product': 'rotation: 2 classes per (key, flag, network)' if q else 'full',
+                              'wrong_passphrases_per_case': ('next class' if q else 'all other classes') +
+                              ' + its own NFKC folding when that differs', 'cases': len(cases)})
+    # ---- prior calls on the key object, then encrypt (history on one live object)
+    hops = list(KEY_OPS)
+    hists = [[]] + [[o] for o in hops]
+    if not q:
+        hists += [[o1, o2] for o1 in hops for o2 in hops]
+    hcases = []
+    hsel = [('lz-seeded', True, 'bitcoin', 'ascii'), ('n-1', False, 'litecoin', 'nfc')]
+    if not q:
+        hsel += [('one', True, 'testnet', 'compat'), ('w0', False, 'bitcoin', 'nfd'), ('w1', True, 'dogecoin', 'vector')]
+    for kl, comp, net, pl in hsel:
+        for j in range(0, len(hists), 16):
+            hcases.append({'key': kl, 'comp': comp, 'net': net, 'pw': pl, 'seed': seed, 'hists': hists[j:j + 16]})
+    if want('hist'):
+        ctx.pmap('hist', hcases, chunk=1)
+    ctx.note('bounds_hist', {'ops': hops, 'max_prior_calls': 1 if q else 2, 'histories_per_key': len(hists),
+                             'keys': [list(x) for x in hsel]})
+    # ---- EC multiplied: every passphrase class in both lot modes (intermediate code compared with the reference);
+    # thorough = full product with compression x network x seed; quick = ASCII gets the full compression x network
+    # product, the other classes one (compression, network) combination each, assigned in rotation
     def salt(tag, n):
         return hashlib.sha256(('C15|%d|salt|%s' % (seed, tag)).encode()).digest()[:n].hex()
 
@@ -438,33 +592,31 @@ def run(ctx):
     lots = [(None, None), (100000, 1)] if q else [(None, None), (100000, 1), (999999, 4095)]
     if not q and seed:
         lots.append((100000 + seed % 899999, 1 + seed % 4095))
-    epws = ['ascii1', 'nfd'] if q else ['ascii1', 'nfd', 'vector']
+    epws = PW_CLASSES
     enets = ['bitcoin', 'litecoin'] if q else NETS
     seeds = [seedb('a')] if q else [seedb('a'), '00' * 24]
-    cases = []
+    allc = [[c, n, sd] for c in (True, False) for n in enets for sd in seeds]
+    flat = []
+    gi = 0
     for pi, pl in enumerate(epws):
         for lot, seq in lots:
-            if q and pl != 'ascii1' and lot is not None:
-                continue
-            salts = [salt('s', 8 if lot is None else 4)] + ([] if q else ['00' * (8 if lot is None else 4)])
+            salts = [salt('s', 8 if lot is None else 4)] + ([] if (q or pl != 'ascii') else ['00' * (8 if lot is None else 4)])
             for sl in salts:
-                combos = [[c, n, sd] for c in (True, False) for n in enets for sd in seeds]
-                cases.append({'pw': pl, 'lot': lot, 'seq': seq, 'salt': sl, 'combos': combos,
-                              'wrong': epws[(pi + 1) % len(epws)]})
-    # one case per (group, combo) keeps the scrypt work spread over the workers
-    flat = []
-    for c in cases:
-        for combo in c['combos']:
-            flat.append(dict(c, combos=[combo]))
+                combos = allc if (not q or pl == 'ascii') else [allc[gi % len(allc)]]
+                gi += 1
+                # one case per (group, combination) keeps the scrypt work spread over the workers
+                for combo in combos:
+                    flat.append({'pw': pl, 'lot': lot, 'seq': seq, 'salt': sl, 'combos': [combo],
+                                 'wrong': epws[(pi + 1) % len(epws)]})
+    assert set((c['pw'], c['lot'] is None) for c in flat) == set((x, y) for x in epws for y in (True, False))
     if want('ec'):
         ctx.pmap('ec', flat, chunk=1)
-    ctx.note('bounds_ec', {'passphrases': epws, 'lot_sequence': lots, 'networks': enets, 'seeds': len(seeds),
+    ctx.note('bounds_ec', {'passphrase_classes': epws, 'lot_sequence': lots, 'networks': enets, 'seeds': len(seeds),
+                           'product': 'ASCII full, other classes one rotating (flag, network)' if q else 'full',
                            'cases': len(flat)})
     # ---- published vectors
     if want('vectors'):
-        with open(os.path.join(os.path.dirname(bip38.__file__), 'vectors', 'bip38_protected_key_tests.json')) as f:
-            nv = len(json.load(f)['valid'])
-        ctx.pmap('vectors', list(range(nv)), chunk=1)
+        ctx.pmap('vectors', list(range(len(_vectors()))), chunk=1)
     # ---- freshness: explicit-state search over call histories
     if want('fresh'):
         depth = 3
